@@ -345,14 +345,18 @@ PROPS = {
         "nontrivial": _op_nontrivial,
         "rule": "op: (operator, argument, value) triples — phrases at the very start/end of the value and one byte short, "
                 "numeric strings at the int64 boundaries and malformed, byte ranges touching 0/255 and malformed, '%' followed "
-                "by every byte value in either nibble position, truncated escapes, invalid UTF-8. Non-trivial = the operator "
+                "by every byte value in either nibble position, truncated escapes, invalid UTF-8; @ipMatch: lists of 1-3 IPv4/IPv6 "
+                "networks (bare, /32, /128, random prefix lengths, malformed lengths, IPv4-mapped spellings, odd separators) and "
+                "values near a network in every spelling Go's net package reads (dotted quad, ::ffff:a.b.c.d, ::ffff:hhhh:hhhh, "
+                "0:0:0:0:0:ffff:…, full and compressed IPv6, trailing dotted quad, leading zeros, zones, junk). Non-trivial = the operator "
                 "matched or its factory rejected the argument; distinct = distinct protocol line.",
         "modelled": "modelled and proved: streq contains beginsWith endsWith within eq ge gt le lt validateUrlEncoding "
-                    "validateUtf8Encoding validateByteRange pm(ASCII phrases) unconditionalMatch noMatch on literal arguments. "
+                    "validateUtf8Encoding validateByteRange pm(ASCII phrases) unconditionalMatch noMatch on literal arguments; "
+                    "ipMatch as a port of netip.ParseAddr / net.ParseCIDR / IPNet.Contains (To4 canonicalisation). "
                     "Parameters (assumed contracts): Aho-Corasick matcher, strings.Contains/HasPrefix/HasSuffix, strconv.Atoi.",
         "assumptions": [
             "Aho-Corasick library: reports a match iff some non-empty pattern is an ASCII-case-insensitive infix",
-            "@rx (Go regexp, RE2) and @ipMatch (net.IPNet) are oracles, not modelled in this engine",
+            "@rx (Go regexp, RE2) is an oracle, not modelled in this engine (its prefilter is C11)",
             "macro expansion of operator arguments is modelled in the engine model (C09), not here",
         ],
         "open_statements": [],
